@@ -94,7 +94,6 @@ def covers(rule, ev, vars_):
 def run(ctx):
     ctx.build_go(prebuild=True)
     T = ctx.tables()
-    ctx.regen({'LogRx.lean': tolean.log_rx(T), 'AaTables.lean': tolean.aa_tables(T)})
     ctx.driver_path = ctx.driver()
     broken = ctx.audit(THEOREMS)
     rng = ctx.rng
